@@ -150,7 +150,8 @@ class RecStream(Stream):
         self._recording = False # Loop can be broken by StopIteration
         self.device_manager.recording_finished(self)
 
-    super(RecStream, self).__init__(rec())
+    self._rec = rec() # Kept: "_data" gets replaced by limit, skip, copy, ...
+    super(RecStream, self).__init__(self._rec)
     self._recording = True
     self.device_manager = device_manager
 
@@ -248,7 +249,8 @@ class AudioIO(object):
         while self._recordings:
           recst = self._recordings[-1]
           recst.stop()
-          recst.take(inf) # Ensure it'll be closed
+          for unused in recst._rec: # Ensure it'll be closed, whatever had
+            pass                    # been done in place with the stream
 
         # Finishes
         assert not self._pa._streams # No stream should survive
